@@ -78,12 +78,35 @@ def lib_name(repo: Repo, fi: FuncInfo, call: ast.Call) -> str:
     return ""
 
 
+_regex_cache: dict = {}
+
+
 def _regex_class(repo: Repo, ci: ClassInfo) -> bool:
-    for m in [*ci.methods.values(), *ci.extra_methods]:
+    """Does the class apply regular expressions - in its own methods or in the repo helpers they call?"""
+    key = (id(repo), ci.fq)
+    if key in _regex_cache:
+        return _regex_cache[key]
+    _regex_cache[key] = False
+    from .common import callees_of
+
+    seen: list[FuncInfo] = []
+    work = [(m, 0) for m in [*ci.methods.values(), *ci.extra_methods]]
+    hit = False
+    while work and not hit:
+        m, d = work.pop()
+        if m in seen:
+            continue
+        seen.append(m)
         for c in [n for n in ast.walk(m.node) if isinstance(n, ast.Call)]:
             if lib_name(repo, m, c) in REGEX_FUNCS or (isinstance(c.func, ast.Attribute) and c.func.attr in REGEX_METHODS):
-                return True
-    return False
+                hit = True
+                break
+        if d < 2:
+            for g in callees_of(repo, m, byname=False):
+                if g.cls is None or g.cls is ci:
+                    work.append((g, d + 1))
+    _regex_cache[key] = hit
+    return hit
 
 
 def _proper_predicates(repo: Repo, ci: ClassInfo, call_names: set[str], method_names: set[str]) -> tuple[set[str], set[str]]:
@@ -485,9 +508,12 @@ class Scan:
                 if self._object_or_none(g, left):
                     return t if isinstance(op, ast.IsNot) else f_not(t)
                 return self.opaque(g, e, False)
+            if isinstance(op, (ast.In, ast.NotIn)) and isinstance(right, (ast.Tuple, ast.List, ast.Set)) and right.elts and self._suffix_of(g, left, R):
+                if all(fold(self.repo, g.module, x, g) == ".py" for x in right.elts):
+                    return PY if isinstance(op, ast.In) else f_not(PY)
             if isinstance(op, (ast.Eq, ast.NotEq)):
                 for a, b in ((left, right), (right, left)):
-                    if isinstance(a, ast.Attribute) and a.attr == "suffix" and fx.is_alias(a.value, R) and fold(self.repo, g.module, b, g) == ".py":
+                    if self._suffix_of(g, a, R) and fold(self.repo, g.module, b, g) == ".py":
                         return PY if isinstance(op, ast.Eq) else f_not(PY)
                     if isinstance(b, ast.Constant) and isinstance(b.value, bool):
                         t = self.F(g, a, R, env, depth)
@@ -517,6 +543,16 @@ class Scan:
                     return PY
             if lib_name(self.repo, g, e) == "os.path.isdir" and len(e.args) == 1 and fx.is_alias(e.args[0], R):
                 return ISDIR
+            if lib_name(self.repo, g, e) == "os.path.isfile" and len(e.args) == 1 and fx.is_alias(e.args[0], R):
+                return ISFILE
+            if isinstance(f, ast.Attribute) and f.attr == "match" and len(e.args) == 1 and fold(self.repo, g.module, e.args[0], g) == "*.py" and fx.is_alias(f.value, R):
+                return PY
+            if lib_name(self.repo, g, e) in ("fnmatch.fnmatch", "fnmatch.fnmatchcase") and len(e.args) == 2 and fold(self.repo, g.module, e.args[1], g) == "*.py":
+                base = e.args[0]
+                if isinstance(base, ast.Attribute) and base.attr == "name":
+                    base = base.value
+                if fx.is_alias(base, R):
+                    return PY
             cs = self.callees(g, e) or self.any_callees(g, e)
             if len(cs) == 1 and depth < 6:
                 got = self.call_truth(g, e, cs[0], R, depth)
@@ -528,6 +564,22 @@ class Scan:
                     return TRUE
             return self.opaque(g, e)
         return self.opaque(g, e)
+
+    def _suffix_of(self, g: FuncInfo, e: ast.expr, R: frozenset | None) -> bool:
+        """`<alias>.suffix` or `os.path.splitext(<alias>)[1]` (also through a single-assignment local)."""
+        fx = self.facts(g)
+        if isinstance(e, ast.Name):
+            bs = fx.bind.get(e.id, [])
+            if e.id not in fx.params and len(bs) == 1 and bs[0][0] == "val":
+                return self._suffix_of(g, bs[0][1], R)
+            return False
+        if isinstance(e, ast.Attribute) and e.attr == "suffix":
+            return fx.is_alias(e.value, R)
+        if isinstance(e, ast.Subscript) and isinstance(e.value, ast.Call) and lib_name(self.repo, g, e.value) == "os.path.splitext" and len(e.value.args) == 1:
+            idx = e.slice
+            if isinstance(idx, ast.Constant) and idx.value in (1, -1):
+                return fx.is_alias(e.value.args[0], R)
+        return False
 
     def _object_or_none(self, g: FuncInfo, e: ast.expr) -> bool:
         """Is the value of `e` either None or an object that is always truthy (so that `e is not None` == truthiness)?"""
@@ -924,6 +976,10 @@ class Scan:
                         out.append(Event(g, n, "register", val, f"`{norm(val, 50)}` added to the result collection `{box}`"))
                 elif isinstance(n, ast.AugAssign) and isinstance(n.op, ast.Add) and norm(n.target) in mine and norm(n.target) not in popped:
                     out.append(Event(g, n, "register", n.value, f"`{norm(n.value, 50)}` added to the result collection `{norm(n.target)}`"))
+                elif isinstance(n, ast.Assign) and len(n.targets) == 1 and norm(n.targets[0]) in mine and norm(n.targets[0]) not in popped and any(norm(x) == norm(n.targets[0]) for x in ast.walk(n.value) if isinstance(x, (ast.Name, ast.Attribute))) and not isinstance(n.value, (ast.Name, ast.Attribute)):
+                    added = [x for x in ast.walk(n.value) if isinstance(x, (ast.List, ast.Tuple, ast.Starred, ast.Call)) and norm(x) != norm(n.targets[0])]
+                    val = ast.Tuple(elts=[x for x in ([n.value.right] if isinstance(n.value, ast.BinOp) else getattr(n.value, "elts", [])) if norm(x.value if isinstance(x, ast.Starred) else x) != norm(n.targets[0])] or added[:1], ctx=ast.Load())
+                    out.append(Event(g, n, "register", val, f"`{norm(n.value, 50)}` becomes the result collection `{norm(n.targets[0])}`"))
                 elif isinstance(n, ast.Assign) and len(n.targets) == 1 and isinstance(n.targets[0], ast.Subscript) and norm(n.targets[0].value) in mine:
                     out.append(Event(g, n, "register", ast.Tuple(elts=[n.targets[0].slice, n.value], ctx=ast.Load()), f"`{norm(n.value, 50)}` stored in the result collection `{norm(n.targets[0].value)}`"))
         return out
